@@ -6,6 +6,7 @@ mod corpus;
 mod csvs;
 mod extract;
 mod trainer;
+mod trainnew;
 mod gen;
 mod image;
 mod limits;
@@ -523,6 +524,11 @@ fn main() {
                 trainer::run(mode, seed, n, &mut out);
             }
         },
+        "trainnew" => {
+            let seed: u64 = args[2].parse().unwrap();
+            let n: usize = args[3].parse().unwrap();
+            trainnew::run(seed, n, &mut out);
+        }
         "limits" => {
             let seed: u64 = args[2].parse().unwrap();
             let n: usize = args[3].parse().unwrap();
